@@ -18,18 +18,18 @@ use noodles_bgzf as bgzf;
 use noodles_sam as sam;
 use noodles_util::{alignment, variant};
 use noodles_vcf as vcf;
-use nv::{Case, CaseWriter, Obs, Outcome, Rng, guarded, hex};
+use nv::{Case, CaseWriter, Obs, Outcome, Rng, adversary::{Deliver, ScriptedReader}, guarded, hex};
 
 use crate::common::gz_oracle;
 
-fn acomp(c: char) -> Option<Option<alignment::io::CompressionMethod>> {
+pub fn acomp(c: char) -> Option<Option<alignment::io::CompressionMethod>> {
     match c {
         'n' => Some(None),
         'b' => Some(Some(alignment::io::CompressionMethod::Bgzf)),
         _ => None,
     }
 }
-fn afmt(c: char) -> Option<alignment::io::Format> {
+pub fn afmt(c: char) -> Option<alignment::io::Format> {
     match c {
         's' => Some(alignment::io::Format::Sam),
         'b' => Some(alignment::io::Format::Bam),
@@ -37,14 +37,14 @@ fn afmt(c: char) -> Option<alignment::io::Format> {
         _ => None,
     }
 }
-fn vcomp(c: char) -> Option<Option<variant::io::CompressionMethod>> {
+pub fn vcomp(c: char) -> Option<Option<variant::io::CompressionMethod>> {
     match c {
         'n' => Some(None),
         'b' => Some(Some(variant::io::CompressionMethod::Bgzf)),
         _ => None,
     }
 }
-fn vfmt(c: char) -> Option<variant::io::Format> {
+pub fn vfmt(c: char) -> Option<variant::io::Format> {
     match c {
         'v' => Some(variant::io::Format::Vcf),
         'b' => Some(variant::io::Format::Bcf),
@@ -68,7 +68,7 @@ fn pg<T>(f: impl FnOnce() -> io::Result<T>) -> io::Result<T> {
 }
 
 /// (build error kind | format letter, behaviour fingerprint) of the alignment builder on window w
-fn behave_a(cfg: &str, w: &[u8]) -> Result<(char, String), String> {
+fn behave_a(cfg: &str, w: &[u8], script: Option<&[Deliver]>) -> Result<(char, String), String> {
     let mut cs = cfg.chars();
     let (oc, of) = (cs.next().unwrap_or('-'), cs.next().unwrap_or('-'));
     let mut b = alignment::io::reader::Builder::default();
@@ -78,7 +78,11 @@ fn behave_a(cfg: &str, w: &[u8]) -> Result<(char, String), String> {
     if let Some(f) = afmt(of) {
         b = b.set_format(f);
     }
-    let mut r = b.build_from_reader(Cursor::new(w.to_vec())).map_err(|e| nv::errkind(&e))?;
+    let src: Box<dyn io::Read> = match script {
+        Some(sc) => Box::new(ScriptedReader::new(w.to_vec(), sc.to_vec())),
+        None => Box::new(Cursor::new(w.to_vec())),
+    };
+    let mut r = b.build_from_reader(src).map_err(|e| nv::errkind(&e))?;
     let h = pg(|| r.read_header());
     let hs = res_str(&h, |h| format!("{:?}", crate::align::canon_header(h).map(|b| hex(&b))));
     let header = h.unwrap_or_default();
@@ -104,7 +108,7 @@ fn behave_a(cfg: &str, w: &[u8]) -> Result<(char, String), String> {
     Ok((f, format!("{hs} {} {}", res_str(&a, |n| n.to_string()), res_str(&b2, |n| n.to_string()))))
 }
 
-fn behave_v(cfg: &str, w: &[u8]) -> Result<(char, String), String> {
+fn behave_v(cfg: &str, w: &[u8], script: Option<&[Deliver]>) -> Result<(char, String), String> {
     let mut cs = cfg.chars();
     let (oc, of) = (cs.next().unwrap_or('-'), cs.next().unwrap_or('-'));
     let mut b = variant::io::reader::Builder::default();
@@ -114,7 +118,11 @@ fn behave_v(cfg: &str, w: &[u8]) -> Result<(char, String), String> {
     if let Some(f) = vfmt(of) {
         b = b.set_format(f);
     }
-    let mut r = b.build_from_reader(Cursor::new(w.to_vec())).map_err(|e| nv::errkind(&e))?;
+    let src: Box<dyn io::Read> = match script {
+        Some(sc) => Box::new(ScriptedReader::new(w.to_vec(), sc.to_vec())),
+        None => Box::new(Cursor::new(w.to_vec())),
+    };
+    let mut r = b.build_from_reader(src).map_err(|e| nv::errkind(&e))?;
     let h = pg(|| r.read_header());
     let hs = res_str(&h, |h| format!("{:?}", crate::variant::canon_header(h).map(|b| hex(&b))));
     let mut r1 = variant::Record::Vcf(vcf::Record::default());
@@ -137,8 +145,13 @@ fn behave_v(cfg: &str, w: &[u8]) -> Result<(char, String), String> {
 }
 
 fn gb(variantside: bool, cfg: &str, w: &[u8]) -> Result<(char, String), String> {
+    gbs(variantside, cfg, w, None)
+}
+
+fn gbs(variantside: bool, cfg: &str, w: &[u8], script: Option<&[Deliver]>) -> Result<(char, String), String> {
     let (cfg, w) = (cfg.to_string(), w.to_vec());
-    match guarded(move || if variantside { behave_v(&cfg, &w) } else { behave_a(&cfg, &w) }) {
+    let script = script.map(|s| s.to_vec());
+    match guarded(move || if variantside { behave_v(&cfg, &w, script.as_deref()) } else { behave_a(&cfg, &w, script.as_deref()) }) {
         Outcome::Done(r) => r,
         Outcome::Panicked(_) => Ok(('P', "Panic".into())),
     }
@@ -146,7 +159,17 @@ fn gb(variantside: bool, cfg: &str, w: &[u8]) -> Result<(char, String), String> 
 
 /// the canonical observation: Ok:<f>:<k> | Err:<kind> | Panic
 pub fn observe(variantside: bool, cfg: &str, w: &[u8]) -> String {
-    match gb(variantside, cfg, w) {
+    observe_with(variantside, cfg, w, None)
+}
+
+/// the same over a source that delivers `data` following `script` (the explicitly configured
+/// readers the behaviour is compared with read the same bytes from a Cursor)
+pub fn observe_src(variantside: bool, cfg: &str, data: &[u8], script: &[Deliver]) -> String {
+    observe_with(variantside, cfg, data, Some(script))
+}
+
+fn observe_with(variantside: bool, cfg: &str, w: &[u8], script: Option<&[Deliver]>) -> String {
+    match gbs(variantside, cfg, w, script) {
         Err(k) => format!("Err:{k}"),
         Ok(('P', _)) => "Panic".into(),
         Ok((f, beh)) => {
@@ -369,6 +392,12 @@ fn run_hz(c: &Case) -> Obs {
     let (whole, stop) = gz_oracle(&s, usize::MAX);
     if whole != payload || stop != "Eof" {
         return Obs::fail("-", "oracle-premise-whole", format!("payload {} bytes, decoder {} bytes then {stop}", payload.len(), whole.len()));
+    }
+    // H_window (premise of the theorems about the repaired builders): the first 8 KiB of the
+    // stream give the decoder the 4 bytes the detector asks for, unless the stream fits the window
+    let (first, _) = gz_oracle(&s[..s.len().min(8192)], 4);
+    if !(first.len() >= 4 || s.len() <= 8192) {
+        return Obs::fail("-", "oracle-premise-window", format!("payload {} bytes, stream {} bytes: {} bytes from the first 8192", payload.len(), s.len(), first.len()));
     }
     let mut cuts: Vec<usize> = (0..40.min(s.len())).collect();
     for _ in 0..12 {
